@@ -101,7 +101,7 @@ def check_job(job):
             if t2.loc[rid, ch + ' Amp. Type'] != ('Log' if g.amplification_type(ch)[0] else 'Linear'):
                 out['labels'].append(('amp-type-column', i))
             # histogram rows
-            unit_text = t.loc[rid, ch + ' Units']
+            unit_text = t.loc[rid, [c for c in t.columns if c.split() == ch.split() + ['Units']][0]]
             scales = ['linear'] if unit_text == 'Channel' else (['linear', 'logicle'] if u == 'channel' else ['logicle'])
             nb = min(g.resolution(ch), 1024)
             try:
@@ -317,7 +317,7 @@ def main(chk, replay=None):
         if chk.quick and not single and (i + chk.seed) % 23 and not both_float_fl3:
             continue
         for inst in (('A', 'B') if single else ('A',)):
-            for fr in ((0.3, 0.85) if single else (0.5,)):
+            for fr in ((0.3, 0.85, 1.0) if single else (0.5,)):      # 1.0: the boundary fraction (every in-grid event)
                 jobs.append((i + (7 if inst == 'B' else 0), rows, exp, inst, [fr] * len(rows)))
     with mp.get_context('fork').Pool(min(16, os.cpu_count() or 1)) as pool:
         outs = pool.map(check_job, jobs, chunksize=1)
